@@ -341,7 +341,11 @@ def f5(ctx):
         regs = [e for e in evs if e.name == 'PUSH_RECV' and e.idx > zero[0].idx]
         if regs:
             resets = [e for e in evs if signal_reset(e) and e.idx < regs[0].idx]
-            if not resets:
+            # ... or the signal was looked at after the reset to Zero and found NOT final (`if sig.poll().is_ready() { sig = new }`):
+            # an item that came straight from the channel never registered the signal, which is still LOCKED and unshared
+            fresh = [e for e in evs if e.name == 'BR' and e.data['label'] == 'sigpoll' and e.data['outcome'] == 'Pending'
+                     and zero[0].idx < e.idx < regs[0].idx and e.sec is None]
+            if not resets and not fresh:
                 ctx.violate(key, p, 'stream future registers again with its signal still in the final state of the previous item (UNLOCKED): a spurious poll returns the previous value again / reads a stale slot', at=regs[0].at)
     if n == 0:
         ctx.violate(key, None, 'no stream re-arm path found', sig='no-rearm')
@@ -376,7 +380,18 @@ def f6(ctx):
                 if drops or canc or waits:
                     ctx.violate(key, p, 'a completed future still cancels / waits / drops data on drop')
                 continue
-            if waiting:
+            claimed = False
+            sp = [e for e in evs if e.name == 'SIG.poll']
+            if waiting and not canc and not waits and len(sp) == 1 and has(lb, 'sigpoll', 'Ready') and sp[0].sec is None \
+                    and sp[0].data['args'] and sp[0].data['args'][0][0] in ('ref', 'rawptr') and place_has_field(sp[0].data['args'][0][1], 'sig') \
+                    and (has(lb, 'waitOK', 'T') != has(lb, 'waitOK', 'F')):
+                # lock-free shortcut: the future's own signal is already in a final state, so the peer has taken the entry out of
+                # the wait list and finished with it (the same observation on which Future::poll completes, F2); what is left is
+                # the disposal, decided by the signal's verdict like after the wait for the owning peer
+                claimed = True
+                saw_wait = saw_wait or False
+                moved = has(lb, 'waitOK', 'T')
+            elif waiting:
                 want = 'CANCEL_SEND' if side == 'send' else 'CANCEL_RECV'
                 if len(canc) != 1 or canc[0].name != want:
                     ctx.violate(key, p, 'a pending future must try to remove its own entry under the lock exactly once')
@@ -400,6 +415,7 @@ def f6(ctx):
                     if not (wa[0] in ('ref', 'rawptr') and place_has_field(wa[1], 'sig')):
                         ctx.violate(key, p, 'waits on a signal other than its own', at=waits[0].at)
                     moved = has(lb, 'waitOK', 'T')
+                    claimed = True
                 else:
                     ctx.violate(key, p, 'cancel result not examined')
                     continue
@@ -415,7 +431,7 @@ def f6(ctx):
                 should_drop = not moved
             else:
                 # a receive future owns a value only if a sender delivered into it while it was being cancelled
-                should_drop = waiting and has(lb, 'cancel', 'F') and moved
+                should_drop = waiting and claimed and moved
             if should_drop:
                 if len(drops) > 1:
                     ctx.violate(key, p, 'local data dropped %d times' % len(drops))
